@@ -4,6 +4,7 @@ import (
 	"fmt"
 	"go/ast"
 	"go/token"
+	"os"
 	"path/filepath"
 	"strings"
 )
@@ -331,6 +332,333 @@ func genAries(repo string) (string, error) {
 		}
 		fmt.Fprintf(&b, "Definition gen_new_node_hit : bool := %v.\n", hit)
 		fmt.Fprintf(&b, "Definition gen_root_is_empty_new_node : bool := %v.\n", root)
+	}
+	return b.String(), nil
+}
+
+// ---------------------------------------------------------------- round 2
+//
+// Gen/AriesEntry.v: what NewContext reads from the request URL, the
+// ErrCode switch, the Router's nil-handler guards, and two repository-wide
+// scans that back the scope "register everything, then serve": call sites
+// that register on a Mux/Router/HostMux from inside a handler or a
+// goroutine, and writes to the routing structures in the serving methods.
+
+func init() { register("AriesEntry", genAriesEntry) }
+
+func urlSrc(p *pkg, e ast.Expr, u string) string {
+	switch p.src(e) {
+	case u + ".Path":
+		return "USPath"
+	case u + ".RawPath":
+		return "USRawPath"
+	case u + ".EscapedPath()":
+		return "USEscapedPath"
+	case "req.RequestURI", u + ".RequestURI()":
+		return "USRequestURI"
+	}
+	return "(USUnknown " + coqStr(p.src(e)) + ")"
+}
+
+var registerMethods = map[string]bool{
+	"Prefix": true, "Exact": true, "Dir": true, "File": true, "MethodFile": true, "Get": true, "Post": true,
+	"JSONCall": true, "JSONCallMust": true, "Call": true, "DirService": true, "Index": true, "Default": true, "Set": true,
+}
+
+var distinctiveRegisterMethods = map[string]bool{
+	"MethodFile": true, "JSONCall": true, "JSONCallMust": true, "DirService": true,
+}
+
+var routingCtors = map[string]bool{
+	"NewRouter": true, "NewMux": true, "NewHostMux": true,
+	"aries.NewRouter": true, "aries.NewMux": true, "aries.NewHostMux": true,
+}
+
+// lateRegistrations scans one package directory.
+func lateRegistrations(p *pkg, rel string) []string {
+	var out []string
+	for _, fn := range p.sortedFiles() {
+		for _, d := range p.files[fn].Decls {
+			fd, ok := d.(*ast.FuncDecl)
+			if !ok || fd.Body == nil {
+				continue
+			}
+			// variables bound to a fresh routing structure in this function
+			tracked := map[string]bool{}
+			ast.Inspect(fd.Body, func(n ast.Node) bool {
+				as, ok := n.(*ast.AssignStmt)
+				if !ok || len(as.Lhs) != 1 || len(as.Rhs) != 1 {
+					return true
+				}
+				call, ok := as.Rhs[0].(*ast.CallExpr)
+				if !ok || !routingCtors[p.src(call.Fun)] {
+					return true
+				}
+				if id, ok := as.Lhs[0].(*ast.Ident); ok {
+					tracked[id.Name] = true
+				}
+				return true
+			})
+			var walk func(n ast.Node, deferred bool)
+			walk = func(n ast.Node, deferred bool) {
+				ast.Inspect(n, func(m ast.Node) bool {
+					switch x := m.(type) {
+					case *ast.FuncLit:
+						if m != n {
+							walk(x.Body, true)
+							return false
+						}
+					case *ast.GoStmt:
+						walk(x.Call, true)
+						return false
+					case *ast.CallExpr:
+						sel, ok := x.Fun.(*ast.SelectorExpr)
+						if !ok || !deferred {
+							return true
+						}
+						id, isID := sel.X.(*ast.Ident)
+						if (isID && tracked[id.Name] && registerMethods[sel.Sel.Name]) ||
+							distinctiveRegisterMethods[sel.Sel.Name] {
+							pos := p.fset.Position(x.Pos())
+							out = append(out, fmt.Sprintf("%s/%s:%d %s", rel, fn, pos.Line, p.src(x.Fun)))
+						}
+					}
+					return true
+				})
+			}
+			walk(fd.Body, false)
+		}
+	}
+	return out
+}
+
+// rootIdent is the identifier an lvalue hangs off: a.b[c].d -> a.
+func rootIdent(e ast.Expr) string {
+	for {
+		switch x := e.(type) {
+		case *ast.Ident:
+			return x.Name
+		case *ast.SelectorExpr:
+			e = x.X
+		case *ast.IndexExpr:
+			e = x.X
+		case *ast.StarExpr:
+			e = x.X
+		case *ast.ParenExpr:
+			e = x.X
+		default:
+			return ""
+		}
+	}
+}
+
+// servingWrites lists statements of a serving method that modify what the
+// receiver (or the named parameter) points to.
+func servingWrites(p *pkg, recvType, name string, extra ...string) []string {
+	fd := p.funcDecl(recvType, name)
+	if fd == nil || fd.Body == nil {
+		return []string{recvType + "." + name + " not found"}
+	}
+	roots := map[string]bool{}
+	if rv := recvVar(fd); rv != "" {
+		roots[rv] = true
+	}
+	for _, e := range extra {
+		roots[e] = true
+	}
+	var out []string
+	ast.Inspect(fd.Body, func(n ast.Node) bool {
+		switch x := n.(type) {
+		case *ast.AssignStmt:
+			for _, l := range x.Lhs {
+				if _, plain := l.(*ast.Ident); plain {
+					continue // a local variable
+				}
+				if roots[rootIdent(l)] {
+					out = append(out, recvType+"."+name+": "+p.src(x))
+				}
+			}
+		case *ast.IncDecStmt:
+			if _, plain := x.X.(*ast.Ident); !plain && roots[rootIdent(x.X)] {
+				out = append(out, recvType+"."+name+": "+p.src(x))
+			}
+		case *ast.CallExpr:
+			if id, ok := x.Fun.(*ast.Ident); ok && id.Name == "delete" {
+				out = append(out, recvType+"."+name+": "+p.src(x))
+			}
+			if sel, ok := x.Fun.(*ast.SelectorExpr); ok && roots[rootIdent(sel.X)] {
+				switch sel.Sel.Name {
+				case "add", "addChild", "Add", "Set", "Prefix", "Exact", "Dir":
+					out = append(out, recvType+"."+name+": "+p.src(x))
+				}
+			}
+		}
+		return true
+	})
+	return out
+}
+
+func genAriesEntry(repo string) (string, error) {
+	p, err := loadPkg(filepath.Join(repo, "aries"))
+	if err != nil {
+		return "", err
+	}
+	var b strings.Builder
+	b.WriteString("(* Generated by gen/aries.go (genAriesEntry) from aries/context.go, aries/router.go,\n" +
+		"   aries/mux.go, aries/host_mux.go, aries/trie.go, trie/*.go and a scan of every package. Do not edit. *)\n" +
+		"From Coq Require Import List String NArith.\n" +
+		"From Verif Require Import Aries.Entry.\n" +
+		"Import ListNotations.\nLocal Open Scope string_scope.\n\n")
+
+	// NewContext: u := req.URL; &C{Path: <e1>, ..., route: newRoute(<e2>)}
+	pathSrc := "(USUnknown \"NewContext not found\")"
+	routeSrc := pathSrc
+	if fd := p.funcDecl("", "NewContext"); fd != nil && fd.Body != nil {
+		uvar := ""
+		ast.Inspect(fd.Body, func(n ast.Node) bool {
+			if as, ok := n.(*ast.AssignStmt); ok && len(as.Lhs) == 1 && len(as.Rhs) == 1 && p.src(as.Rhs[0]) == "req.URL" {
+				if id, ok := as.Lhs[0].(*ast.Ident); ok {
+					uvar = id.Name
+				}
+			}
+			return true
+		})
+		if uvar == "" {
+			uvar = "req.URL"
+		}
+		pathSrc = "(USUnknown \"no Path field in NewContext\")"
+		routeSrc = "(USUnknown \"no route field in NewContext\")"
+		ast.Inspect(fd.Body, func(n ast.Node) bool {
+			kv, ok := n.(*ast.KeyValueExpr)
+			if !ok {
+				return true
+			}
+			switch p.src(kv.Key) {
+			case "Path":
+				pathSrc = urlSrc(p, kv.Value, uvar)
+			case "route":
+				routeSrc = "(USUnknown " + coqStr(p.src(kv.Value)) + ")"
+				if c, ok := kv.Value.(*ast.CallExpr); ok && p.src(c.Fun) == "newRoute" && len(c.Args) == 1 {
+					routeSrc = urlSrc(p, c.Args[0], uvar)
+				}
+			}
+			return true
+		})
+		// later assignments to c.Path / c.route in NewContext would escape the literal
+		for _, w := range servingWrites(p, "", "NewContext", "c", "ctx") {
+			pathSrc = "(USUnknown " + coqStr("assignment after the literal: "+w) + ")"
+		}
+	}
+	fmt.Fprintf(&b, "Definition gen_ctx_path_src : url_src := %s.\n", pathSrc)
+	fmt.Fprintf(&b, "Definition gen_ctx_route_src : url_src := %s.\n\n", routeSrc)
+
+	// C.ErrCode: switch errcode.Of(err) { case errcode.X: return c.replyError(N, err) ... } return c.replyError(D, err)
+	{
+		var rows []string
+		dflt := "0 (* not found *)"
+		ok := false
+		if a, fd, err := methodCtx(p, "C", "ErrCode"); err == nil {
+			c := a.recv
+			for _, st := range fd.Body.List {
+				switch x := st.(type) {
+				case *ast.SwitchStmt:
+					ok = true
+					for _, cc := range x.Body.List {
+						cl := cc.(*ast.CaseClause)
+						row := ""
+						if len(cl.List) == 1 && len(cl.Body) == 1 {
+							name := strings.TrimPrefix(p.src(cl.List[0]), "errcode.")
+							body := p.src(cl.Body[0])
+							pre := "return " + c + ".replyError("
+							if strings.HasPrefix(body, pre) && strings.HasSuffix(body, ", err)") {
+								code := strings.TrimSuffix(strings.TrimPrefix(body, pre), ", err)")
+								if _, e := fmt.Sscanf(code, "%d", new(int)); e == nil {
+									row = fmt.Sprintf("(%s, %s%%N)", coqStr(name), code)
+								}
+							}
+						}
+						if row == "" {
+							row = fmt.Sprintf("(%s, 0%%N)", coqStr("unrecognised: "+p.src(cc)))
+						}
+						rows = append(rows, row)
+					}
+				case *ast.ReturnStmt:
+					body := p.src(x)
+					pre := "return " + c + ".replyError("
+					if strings.HasPrefix(body, pre) && strings.HasSuffix(body, ", err)") {
+						dflt = strings.TrimSuffix(strings.TrimPrefix(body, pre), ", err)") + "%N"
+					}
+				}
+			}
+		}
+		if !ok {
+			rows = []string{"(\"ErrCode switch not found\", 0%N)"}
+		}
+		fmt.Fprintf(&b, "Definition gen_errcode_table : list (string * N) :=\n  [%s].\n", strings.Join(rows, "; "))
+		fmt.Fprintf(&b, "Definition gen_errcode_default : N := %s.\n\n", dflt)
+	}
+
+	// Router: nil handlers are refused (add) or mean "none" (Index, Default)
+	{
+		addOK, idxOK, dfOK, helperOK := false, false, false, false
+		if fd := p.funcDecl("Router", "add"); fd != nil && fd.Body != nil && len(fd.Body.List) > 0 {
+			addOK = p.src(fd.Body.List[0]) == `if nilService(n.s) { panic("function is nil") }`
+		}
+		if fd := p.funcDecl("", "nilService"); fd != nil && fd.Body != nil {
+			helperOK = p.src(fd.Body) == "{ if s == nil { return true } f, ok := s.(Func) return ok && f == nil }"
+		}
+		shape := func(name, field string) bool {
+			fd := p.funcDecl("Router", name)
+			if fd == nil || fd.Body == nil {
+				return false
+			}
+			return p.src(fd.Body) == "{ if f == nil { r."+field+" = nil return } r."+field+" = f }"
+		}
+		idxOK, dfOK = shape("Index", "index"), shape("Default", "miss")
+		fmt.Fprintf(&b, "Definition gen_router_add_refuses_nil : bool := %v.\n", addOK && helperOK)
+		fmt.Fprintf(&b, "Definition gen_router_nil_index_is_none : bool := %v.\n", idxOK && dfOK)
+	}
+
+	// serving methods do not write to the routing structures
+	{
+		var w []string
+		w = append(w, servingWrites(p, "Mux", "Route")...)
+		w = append(w, servingWrites(p, "Mux", "Serve")...)
+		w = append(w, servingWrites(p, "trieNode", "find")...)
+		w = append(w, servingWrites(p, "", "trieFind", "root")...)
+		w = append(w, servingWrites(p, "Router", "Serve")...)
+		w = append(w, servingWrites(p, "Router", "notFound")...)
+		w = append(w, servingWrites(p, "HostMux", "Serve")...)
+		if tp, err := loadPkg(filepath.Join(repo, "trie")); err == nil {
+			w = append(w, servingWrites(tp, "node", "find")...)
+			w = append(w, servingWrites(tp, "node", "findSub")...)
+			w = append(w, servingWrites(tp, "Trie", "Find")...)
+			w = append(w, servingWrites(tp, "Trie", "FindExact")...)
+		} else {
+			w = append(w, "package trie not readable")
+		}
+		fmt.Fprintf(&b, "\nDefinition gen_serving_writes : list string :=\n  %s.\n", coqStrList(w))
+	}
+
+	// registration from inside handlers / goroutines, anywhere in the repository
+	{
+		var late []string
+		filepath.WalkDir(repo, func(path string, d os.DirEntry, err error) error {
+			if err != nil || !d.IsDir() {
+				return nil
+			}
+			if n := d.Name(); strings.HasPrefix(n, ".") || n == "testdata" || n == "vendor" {
+				return filepath.SkipDir
+			}
+			q, err := loadPkg(path)
+			if err != nil || len(q.files) == 0 {
+				return nil
+			}
+			rel, _ := filepath.Rel(repo, path)
+			late = append(late, lateRegistrations(q, rel)...)
+			return nil
+		})
+		fmt.Fprintf(&b, "\nDefinition gen_late_registrations : list string :=\n  %s.\n", coqStrList(late))
 	}
 	return b.String(), nil
 }
